@@ -6,6 +6,7 @@
 //
 //	rewrite-import <file> <import-path> <new-import-path> [alias]   replace one import (AST rewrite)
 //	set-const <file> <Name> <value>                                 replace the value of a const/var declaration
+//	const-to-var <file> <Name>                                      turn the single-name declaration `const Name = v` into `var Name = v`
 //	add-file <repo-rel-dest> <verif-rel-src>                        add a file (or virtual package) to the tree
 //
 // -base is an existing overlay (e.g. produced from patches by scripts/patch_overlay.sh) whose
@@ -96,6 +97,11 @@ func main() {
 					die("bad line: %s", line)
 				}
 				texts[fs[1]] = setConst(fs[1], read(fs[1]), fs[2], fs[3])
+			case "const-to-var":
+				if len(fs) != 3 {
+					die("bad line: %s", line)
+				}
+				texts[fs[1]] = constToVar(fs[1], read(fs[1]), fs[2])
 			case "add-file":
 				if len(fs) != 3 {
 					die("bad line: %s", line)
@@ -144,6 +150,36 @@ func rewriteImport(name string, src []byte, from, to, alias string) []byte {
 	}
 	if n == 0 {
 		die("%s does not import %q (hook target moved?)", name, from)
+	}
+	var buf bytes.Buffer
+	if err := format.Node(&buf, fset, f); err != nil {
+		die("format %s: %v", name, err)
+	}
+	return buf.Bytes()
+}
+
+// constToVar makes a tuning constant settable by a harness (small-scope exploration of code paths that
+// only a large population would reach); the declaration must be `const Name = value` on its own.
+func constToVar(name string, src []byte, cname string) []byte {
+	fset := token.NewFileSet()
+	f, err := parser.ParseFile(fset, name, src, parser.ParseComments)
+	if err != nil {
+		die("parse %s: %v", name, err)
+	}
+	n := 0
+	for _, d := range f.Decls {
+		gd, ok := d.(*ast.GenDecl)
+		if !ok || gd.Tok != token.CONST || len(gd.Specs) != 1 {
+			continue
+		}
+		vs := gd.Specs[0].(*ast.ValueSpec)
+		if len(vs.Names) == 1 && vs.Names[0].Name == cname {
+			gd.Tok = token.VAR
+			n++
+		}
+	}
+	if n != 1 {
+		die("%s: stand-alone const %s not found", name, cname)
 	}
 	var buf bytes.Buffer
 	if err := format.Node(&buf, fset, f); err != nil {
